@@ -825,6 +825,14 @@ pub fn operand_cases(quick: bool) -> Vec<(String, SClass, Encoding)> {
 		one(format!("ret/{x}"), SInsn::Ret(x));
 	}
 	// invokeinterface: argument slots 0, 1, 2, 253, 254 (count byte 1 … 255), with one- and two-slot arguments
+	for slots in [252usize, 253, 254] {
+		for w in ["J", "D"] {
+			for desc in [format!("({}{w})V", "I".repeat(slots - 2)), format!("({w}{})V", "I".repeat(slots - 2)), format!("({}{w})V", "[J".repeat(slots - 2)), format!("({}{})V", "I".repeat(slots % 2), w.repeat(slots / 2))] {
+				let c = class_with_method("p/I", vec![SInsn::Invoke(op::INVOKEINTERFACE, mref("p/Itf", "big", &desc), true), RETURN]);
+				v.push((format!("invokeinterface/slots{slots}/{}", &desc[..6]), c, Encoding::default()));
+			}
+		}
+	}
 	for slots in [0usize, 1, 2, 3, 127, 128, 253, 254] {
 		for wide_args in [false, true] {
 			let desc = if wide_args { format!("({}{})V", "J".repeat(slots / 2), "I".repeat(slots % 2)) } else { format!("({})V", "I".repeat(slots)) };
@@ -846,9 +854,25 @@ pub fn operand_cases(quick: bool) -> Vec<(String, SClass, Encoding)> {
 /// Built by assembling `invokespecial <InterfaceMethodref>; nop; nop` and rewriting the five bytes.
 pub fn patched_invokeinterface() -> Vec<(String, Vec<u8>)> {
 	let mut v = Vec::new();
-	for slots in [255usize, 256, 300] {
+	// argument lists around the 255-slot limit in every composition that reaches it differently: one-slot arguments
+	// only, a two-slot argument straddling the limit (starting at slot 253/254/255, counting `this`), two-slot arguments
+	// first, objects and arrays before a double
+	let mut descs: Vec<(usize, String)> = Vec::new();
+	for slots in [255usize, 256, 257, 300] {
+		descs.push((slots, format!("({})V", "I".repeat(slots))));
+		for w in ["J", "D"] {
+			descs.push((slots, format!("({}{w})V", "I".repeat(slots - 2))));
+			descs.push((slots, format!("({w}{})V", "I".repeat(slots - 2))));
+			descs.push((slots, format!("({}{w})V", "Lp/T;".repeat(slots - 2))));
+			descs.push((slots, format!("({}{w})V", "[J".repeat(slots - 2))));
+			descs.push((slots, format!("({}{})V", "I".repeat(slots % 2), w.repeat(slots / 2))));
+			descs.push((slots, format!("({}{})V", w.repeat(slots / 2), "I".repeat(slots % 2))));
+		}
+	}
+	for (slots, desc) in descs {
 		for count_byte in [0u8, 1, 255] {
-			let desc = format!("({})V", "I".repeat(slots));
+			let tag = desc.chars().filter(|c| *c == 'J' || *c == 'D').count();
+			let slots_tag = format!("{slots}/{}two-slot/{}", tag, &desc[..desc.len().min(6)]);
 			let c = class_with_method("p/I", vec![SInsn::Invoke(op::INVOKESPECIAL, mref("p/Itf", "big", &desc), true), SInsn::Simple(0), SInsn::Simple(0), RETURN]);
 			let Ok(mut bytes) = cfmodel::asm::assemble(&c, &Encoding::default()) else { continue };
 			let Ok(p) = cfmodel::parse(&bytes) else { continue };
@@ -856,7 +880,7 @@ pub fn patched_invokeinterface() -> Vec<(String, Vec<u8>)> {
 			bytes[at] = op::INVOKEINTERFACE;
 			bytes[at + 3] = count_byte;
 			bytes[at + 4] = 0;
-			v.push((format!("invokeinterface-unrepresentable/slots{slots}/count{count_byte}"), bytes));
+			v.push((format!("invokeinterface-unrepresentable/slots{slots_tag}/count{count_byte}"), bytes));
 		}
 	}
 	v
